@@ -1226,9 +1226,10 @@ class _NP:
             i, j = idx[0] - b0, idx[1] - b1
             inside = b_and(lift(i) >= 0, lift(i) < s0, lift(j) >= 0, lift(j) < s1) if not all(isinstance(t, int) for t in (i, j, s0, s1)) \
                 else (0 <= i < s0 and 0 <= j < s1)
+            zero = 0.0 if a.kind == "float" else 0
             if isinstance(inside, bool):
-                return f((i, j)) if inside else (0.0 if a.kind == "float" else 0)
-            return ite(inside, f((i, j)), 0.0 if a.kind == "float" else 0)
+                return f((i, j)) if inside else zero
+            return ite(inside, cur().under(zb(inside), lambda: f((i, j)), default=zero), zero)
         return Arr(shp, fn, dtype=a.kind)
 
     def meshgrid(self, x, y, indexing="xy"):
